@@ -367,6 +367,56 @@ pub fn run_coll(c: &CollCase) -> Outcome {
                     out.count("fault.F6_duplicate_add", 1);
                 }
             }
+            CollOp::Decode { ids, tagged, indefinite, wide } if matches!(kind, CollKind::WsNativeScripts | CollKind::WsPlutusData) => {
+                // a list decoded from a peer's bytes (with repeats) is handed unmodified to the typed setter
+                let ids: Vec<u8> = ids.iter().map(|x| x % UNIVERSE).collect();
+                let mut b = vec![];
+                if *tagged {
+                    cbor::w_tag(&mut b, 258);
+                }
+                if *indefinite {
+                    b.push(0x9f);
+                } else {
+                    cbor::head_w(&mut b, 4, ids.len() as u64, if *wide { 2 } else { 0 });
+                }
+                for id in &ids {
+                    b.extend_from_slice(&universe[*id as usize].1);
+                }
+                if *indefinite {
+                    b.push(0xff);
+                }
+                out.count("fault.F8_foreign_encoding_decodes", 1);
+                if dedup(&ids).len() != ids.len() {
+                    out.count("fault.F6_repeated_element_in_bytes", 1);
+                }
+                let mut ws = csl::TransactionWitnessSet::new();
+                let ok = if kind == CollKind::WsPlutusData {
+                    match csl::PlutusList::from_bytes(b) {
+                        Ok(l) => {
+                            ws.set_plutus_data(&l);
+                            true
+                        }
+                        Err(_) => false,
+                    }
+                } else {
+                    match csl::NativeScripts::from_bytes(b) {
+                        Ok(l) => {
+                            ws.set_native_scripts(&l);
+                            true
+                        }
+                        Err(_) => false,
+                    }
+                };
+                if ok && !ids.is_empty() {
+                    obj = Box::new(OWs { kind, ids: dedup(&ids), ws });
+                    model = dedup(&ids);
+                } else {
+                    if !ok {
+                        out.count("c16.decoder_rejected_encoding", 1);
+                    }
+                    applied = false;
+                }
+            }
             CollOp::Decode { ids, tagged, indefinite, wide } => {
                 if is_ws {
                     applied = false;
@@ -603,6 +653,20 @@ pub fn run_session(sc: &Scenario, k_repeats: u64) -> Outcome {
     let (h, signed) = wallet::run_and_sign(sc);
     let mut out = Outcome::default();
     common(sc, &h, &signed, &mut out);
+    // Recorded, not judged: the same history replayed on a *new* builder whose containers get other
+    // hash keys (same RNG answers). The statement speaks of rebuilding an unchanged builder; a
+    // difference here is reported in the evidence as cross_builder_order_dependence only.
+    if !h.built.is_empty() {
+        let mut sc2 = sc.clone();
+        sc2.rng.forced = Some(h.draws.clone());
+        sc2.hash_seed = mix(sc.hash_seed, 0xC0FFEE);
+        let h2 = exec::run(&sc2);
+        out.count("c16.cross_builder_replays", 1);
+        let same = h2.built.len() == h.built.len() && h.built.iter().zip(h2.built.iter()).all(|(a, b)| a.bytes == b.bytes);
+        if !same {
+            out.count("c16.cross_builder_order_dependence", 1);
+        }
+    }
     let plan = RngPlan { sampler: Sampler::Uniform, seed: 0, forced: None };
     for b in &h.built {
         let mut distinct: BTreeSet<Vec<u8>> = BTreeSet::new();
